@@ -124,6 +124,19 @@ fn search_c01() {
         // nothing outside the parent may have been written
         for (i, x) in buf.iter().enumerate() { if (i < OFF || i >= OFF + LEN) && *x != 0x5A { report("C01", format!("byte {i} outside the parent was modified (round {round})"), &mut found); break; } }
     }
+    // region level: a raw host address is handed out exactly for offsets inside the region
+    for (gbase, len) in [(0u64, 0x1000usize), (0x1000, 0x1000), (0x10_0000, 0x2000), (u64::MAX - 0x1fff, 0x1000)] {
+        let reg = GuestRegionMmap::<()>::new(MmapRegion::new(len).unwrap(), GuestAddress(gbase)).unwrap();
+        let hbase = reg.as_ptr() as usize;
+        let mut offs = boundary(len as u64);
+        offs.extend([gbase, gbase.wrapping_add(len as u64 - 1), gbase.wrapping_add(len as u64), gbase.wrapping_sub(1)]);
+        for o in offs {
+            match reg.get_host_address(MemoryRegionAddress(o)) {
+                Ok(p) => { if o >= len as u64 || p as usize != hbase + o as usize { report("C01", format!("region (guest base {gbase:#x}, {len:#x} bytes).get_host_address({o:#x}) handed out host address {:#x}, outside / not that byte of the mapping at {hbase:#x}", p as usize), &mut found); } }
+                Err(_) => { if o < len as u64 { report("C01", format!("region (guest base {gbase:#x}, {len:#x} bytes).get_host_address({o:#x}) refused an offset inside the region"), &mut found); } }
+            }
+        }
+    }
     println!("CASES 4000");
     assert!(found == 0);
 }
